@@ -945,6 +945,243 @@ func c15Coq(c *c15Case, o c15Out) string {
 	return vf.CoqApp("cs", req, pl, rul, obs)
 }
 
+// ---- classification -------------------------------------------------------------------
+
+func c15Tags(c *c15Case, o c15Out) ([]string, bool) {
+	tags := []string{"out:" + o.Kind, "setting:" + c.Setting, "method:" + c.Method}
+	if o.Kind == "notforwarded" {
+		tags = append(tags, fmt.Sprintf("out:status-%d", o.Status))
+	}
+
+	interactions := 0
+
+	if c.Trusted {
+		tags = append(tags, "peer:trusted")
+	}
+
+	if strings.Contains(c.Peer, ":") {
+		tags = append(tags, "peer:ipv6")
+	}
+
+	if strings.Contains(c.Raw, "%") {
+		tags = append(tags, "path:escapes")
+	}
+
+	if c.Rw != nil {
+		tags = append(tags, "site:Rewrite")
+
+		if c.Rw.Cut != "" {
+			if strings.HasPrefix(c.Raw, c.Rw.Cut) {
+				tags = append(tags, "rw:cut-hit")
+
+				if strings.Contains(c.Raw, "%") {
+					interactions++
+				}
+			} else {
+				tags = append(tags, "rw:cut-miss")
+			}
+		}
+
+		if c.Rw.Add != "" {
+			tags = append(tags, "rw:add")
+
+			if strings.Contains(c.Raw, "%") {
+				interactions++
+			}
+		}
+
+		if c.Rw.Scheme != "" {
+			tags = append(tags, "rw:scheme")
+		}
+
+		if len(c.Rw.StripQ) > 0 && c.Query != "" {
+			tags = append(tags, "site:RemoveFrom")
+
+			vals, err := url.ParseQuery(c.Query)
+			if err != nil {
+				tags = append(tags, "q:unparsable")
+			}
+
+			for _, k := range c.Rw.StripQ {
+				if _, ok := vals[k]; ok {
+					tags = append(tags, "q:strip-hit")
+					interactions++
+
+					break
+				}
+			}
+		}
+	}
+
+	pnames := map[string]string{}
+	for _, h := range c.PHdrs {
+		pnames[c15CanonKey(h[0])] = h[0]
+	}
+
+	for _, h := range c.Headers {
+		k := c15CanonKey(h[0])
+		if pn, ok := pnames[k]; ok {
+			tags = append(tags, "hdr:collision")
+			interactions++
+
+			if pn != h[0] {
+				tags = append(tags, "hdr:collision-other-casing")
+			}
+		}
+
+		switch k {
+		case "X-Forwarded-Method", "X-Forwarded-Uri", "X-Forwarded-Path":
+			tags = append(tags, "hdr:client-"+strings.ToLower(k))
+			interactions++
+		case "X-Forwarded-For", "X-Forwarded-Proto", "X-Forwarded-Host", "Forwarded":
+			tags = append(tags, "hdr:client-forwarding")
+			interactions++
+		case "Connection":
+			tags = append(tags, "hdr:connection-tokens")
+		}
+	}
+
+	if len(c.PCooks) > 0 {
+		tags = append(tags, "pipeline:cookies")
+	}
+
+	if len(c.PHdrs) > 0 {
+		tags = append(tags, "pipeline:headers")
+	}
+
+	if c.Body != "" {
+		tags = append(tags, "body:present")
+
+		if c.Chunked {
+			tags = append(tags, "body:chunked")
+		}
+
+		if c.ReadBdy {
+			tags = append(tags, "body:read-by-pipeline")
+		}
+	}
+
+	if o.Kind == "forwarded" {
+		tags = append(tags, "site:CreateURL", "site:rewriteRequest")
+	}
+
+	// de-duplicate
+	seen := map[string]bool{}
+	out := tags[:0]
+
+	for _, t := range tags {
+		if !seen[t] {
+			seen[t] = true
+			out = append(out, t)
+		}
+	}
+
+	return out, o.Kind == "forwarded" && interactions > 0
+}
+
+// ---- corpus ------------------------------------------------------------------------------
+
+func c15Corpus() []c15Case {
+	base := func(method, raw, query string) c15Case {
+		return c15Case{Srv: 0, Peer: "127.0.0.2", Method: method, Raw: raw, Query: query, Host: "h.example.com", Setting: "no_decode"}
+	}
+
+	var out []c15Case
+
+	// C15-F1: unparsable query, strip_query_parameters not applied (and the parsable twin)
+	c := base("GET", "/x", "a=1&b=%zz")
+	c.Rw = &c15Rw{StripQ: []string{"a"}}
+	out = append(out, c)
+	c = base("GET", "/x", "a=1&b=2")
+	c.Rw = &c15Rw{StripQ: []string{"a"}}
+	out = append(out, c)
+	c = base("GET", "/x", "a=1;b=2&a=3")
+	c.Rw = &c15Rw{StripQ: []string{"a"}}
+	out = append(out, c)
+
+	// C15-F2: trusted peer's X-Forwarded-Method
+	c = base("PROPFIND", "/x", "")
+	c.Srv, c.Body = 1, "<propfind/>"
+	c.Headers = [][2]string{{"X-Forwarded-Method", "GET"}}
+	out = append(out, c)
+
+	// C15-F3: allow_encoded_slashes on re-normalises every escape
+	c = base("GET", "/0%20/%3Busers", "")
+	c.Setting = "on"
+	out = append(out, c)
+	c = base("GET", "/a%2Fb%2fc", "")
+	c.Setting = "on"
+	out = append(out, c)
+	c = base("GET", "/x", "")
+	c.Setting = "on"
+	c.Rw = &c15Rw{Add: "/a!b"}
+	out = append(out, c)
+
+	// C15-F4: pipeline-produced forwarding header overwritten
+	c = base("GET", "/x", "")
+	c.PHdrs = [][2]string{{"Forwarded", "v1"}}
+	out = append(out, c)
+
+	// C15-F5: add_path_prefix that is not a valid encoded path
+	c = base("GET", "/x%3By", "")
+	c.Rw = &c15Rw{Add: "/a b"}
+	out = append(out, c)
+	c = base("GET", "/img", "")
+	c.Rw = &c15Rw{Add: "/%zz"}
+	out = append(out, c)
+
+	// the non-vacuity example of the development
+	c = base("POST", "/api/v1%2Fx/%3Bq%41", "a=1&b=%2F&a=3&c")
+	c.Peer = "127.0.0.3"
+	c.Body = "{\"a\":1}"
+	c.Headers = [][2]string{{"X-USER", "mallory"}, {"x-forwarded-method", "DELETE"}, {"X-Forwarded-For", "6.6.6.6"},
+		{"Cookie", "c=1"}, {"connection", "close, X-Drop"}, {"X-Drop", "1"}, {"Accept", "*/*"}}
+	c.PHdrs = [][2]string{{"x-user", "alice"}, {"Authorization", "Bearer t"}, {"X-User", "second"}}
+	c.PCooks = [][2]string{{"sid", "1"}}
+	c.Rw = &c15Rw{Cut: "/api", Add: "/up", StripQ: []string{"a"}}
+	out = append(out, c)
+
+	// edges of the request target and of the rewrite
+	for _, e := range []struct{ raw, cut, add string }{
+		{"/", "", ""}, {"/", "/", ""}, {"//x", "/", ""}, {"/api", "/api", ""}, {"/api/x", "/api", "up"},
+		{"/a%2Fb", "/a%2", ""}, {"/a%2Fb", "/a%", "/x%"}, {"/%41", "/A", "/p"}, {"/A", "/%41", "/p"},
+		{"/a\"b%3B", "", ""}, {"/caf\xc3\xa9/%3B", "", "/p"}, {"/x#y", "", ""}, {"/a+b c", "", ""},
+	} {
+		c = base("GET", e.raw, "")
+		if e.cut != "" || e.add != "" {
+			c.Rw = &c15Rw{Cut: e.cut, Add: e.add}
+		}
+
+		out = append(out, c)
+	}
+
+	// encoded slashes under the three settings (either spelling)
+	for _, st := range []string{"off", "on", "no_decode"} {
+		for _, raw := range []string{"/a%2Fb", "/a%2fb"} {
+			c = base("GET", raw, "")
+			c.Setting = st
+			out = append(out, c)
+		}
+	}
+
+	// header algebra
+	c = base("GET", "/h", "")
+	c.Srv = 1
+	c.Headers = [][2]string{{"X-Forwarded-For", "10.0.0.1"}, {"Forwarded", "for=10.0.0.1"}, {"X-Forwarded-Uri", "/other?b=2&a=1"},
+		{"X-Forwarded-Proto", "http"}, {"X-Forwarded-Host", "orig.example.com"}, {"X-Forwarded-Path", "/p"}}
+	out = append(out, c)
+	c = base("GET", "/h", "")
+	c.Headers = [][2]string{{"Cookie", "a=1"}, {"Cookie", "b=2"}, {"User-Agent", "one"}, {"User-Agent", "two"}, {"Range", "bytes=0-1"}}
+	c.PCooks = [][2]string{{"sid", "1"}, {"Z", "2"}, {"a.b", "3"}}
+	out = append(out, c)
+	c = base("HEAD", "/h", "")
+	c.Headers = [][2]string{{"connection", "close, x-user , Authorization"}, {"X-User", "mallory"}, {"Authorization", "Basic x"}, {"Keep-Alive", "1"}}
+	c.PHdrs = [][2]string{{"X-USER", "alice"}, {"host", "up.internal"}, {"X-Forwarded-Uri", "/from-pipeline"}}
+	out = append(out, c)
+
+	return out
+}
+
 // ---- main ------------------------------------------------------------------------------
 
 func TestVerifC15(t *testing.T) {
@@ -961,10 +1198,18 @@ func TestVerifC15(t *testing.T) {
 	emit := func(stream string, c c15Case) {
 		if vf.Want(idx) {
 			o := s.run(&c)
-			w.Put(vf.Obs{I: idx, Stream: stream, In: c, Out: o, Coq: c15Coq(&c, o), Tags: []string{"kind:" + o.Kind}})
+			tags, nontrivial := c15Tags(&c, o)
+			key := c
+			key.UpHost = "" // the port of the upstream differs from run to run
+			w.Put(vf.Obs{I: idx, Stream: stream, In: c, Out: o, Coq: c15Coq(&c, o), Nontrivial: nontrivial,
+				Key: vf.KeyOf(key), Tags: tags})
 		}
 
 		idx++
+	}
+
+	for _, c := range c15Corpus() {
+		emit("corpus", c)
 	}
 
 	for i := 0; i < n; i++ {
